@@ -541,10 +541,10 @@ func rulePrims(c *Ctx, p *core.Program) {
 	ps := p.Method(core.PkgProto, "Buffer", "PutString")
 	sr := p.Method(core.PkgProto, "Reader", "StrRaw")
 	if ps != nil && sr != nil &&
-		core.ReachesCallee(ps, func(f *types.Func) bool { return core.IsMethod(f, core.PkgProto, "Buffer", "PutLen") }, 0) &&
-		core.ReachesCallee(sr, func(f *types.Func) bool { return core.IsMethod(f, core.PkgProto, "Reader", "StrLen") }, 0) &&
-		core.ReachesCallee(sr, func(f *types.Func) bool { return core.IsFunc(f, "io", "ReadFull") }, 0) {
-		c.R.Ok(rule, "prim/Str", cfg, p.Pos(ps.Pos()), "PutLen+bytes / StrLen+ReadFull")
+		core.ReachesCallee(ps, func(f *types.Func) bool { return core.IsMethod(f, core.PkgProto, "Buffer", "PutUVarInt") }, 3) &&
+		core.ReachesCallee(sr, func(f *types.Func) bool { return core.IsMethod(f, core.PkgProto, "Reader", "UVarInt") }, 3) &&
+		core.ReachesCallee(sr, func(f *types.Func) bool { return core.IsFunc(f, "io", "ReadFull") }, 3) {
+		c.R.Ok(rule, "prim/Str", cfg, p.Pos(ps.Pos()), "uvarint length + bytes / uvarint length + ReadFull")
 	} else {
 		c.R.Bad(rule, "prim/Str", cfg, "", "string primitives are not length-prefixed full reads")
 	}
